@@ -435,10 +435,10 @@ func runLifecycle(c *sim.Ctl) {
 		k := rkOK
 		if st.Draw(2) == 1 {
 			k = 1 + st.Draw(7)
-			if k == 6 {
+			switch k {
+			case 6: // (no hand-over of sockets with fake servers)
 				k = rkPanic
-			}
-			if k == 7 {
+			case 7:
 				k = rkShutdownCb
 			}
 		}
@@ -545,6 +545,9 @@ func runLifecycle(c *sim.Ctl) {
 		}
 	}
 	r.check()
+	if r.waitRet && !r.exited && r.stopped && r.shutSig < 0 && r.noLockHeld() && r.underOnce == 0 {
+		r.secondStart()
+	}
 	// ---- cleanup ----
 	r.cleanup = true
 	c.ReleaseAll()
@@ -591,6 +594,79 @@ func runLifecycle(c *sim.Ctl) {
 	c.Quiesce()
 	casket.VerifReset()
 	lc = nil
+}
+
+// secondStart: the embedding program carries on after the instance it had started was stopped
+// through the API (Wait has returned, the process has not exited) and starts another one: an
+// initial start like the first, so its first-startup callbacks run, once, before its startup
+// callbacks; a shutdown signal then runs its shutdown and final-shutdown callbacks exactly once.
+func (r *lcRig) secondStart() {
+	c := r.c
+	c.Probe("second-initial-start-after-stop")
+	r.mu.Lock()
+	mark := len(r.trace)
+	r.mu.Unlock()
+	cfg := r.genCfg(rkOK)
+	done := false
+	go func() {
+		c.ParkIf("op.95start-again", "operator", r.noLockHeld)
+		r.pending = cfg
+		in, err := casket.LoadCasketfile("fake")
+		if err != nil {
+			panic(err)
+		}
+		r.ev("start-begin", cfg.label, "again")
+		inst, err := casket.Start(in)
+		if err != nil {
+			c.Violate("C16/second-start-failed", "", "starting a new instance after the first one was stopped failed: %v", err)
+			done = true
+			return
+		}
+		r.inst, r.head = inst, cfg.label
+		r.ev("start-end", cfg.label, "again")
+		done = true
+	}()
+	if !c.Drain(300, 100*time.Millisecond, func() bool { return done }) {
+		c.Violate("C16/liveness", "second-start", "a second initial start did not return within the drain budget; parked=%v", c.ParkedKeys())
+		return
+	}
+	if len(c.Viol) > 0 && !r.noLockHeld() {
+		return
+	}
+	r.sendSignal(syscall.SIGTERM)
+	if !c.Drain(300, 100*time.Millisecond, func() bool { return r.exited }) {
+		c.Violate("C16/liveness", "no-exit-after-sigterm", "process did not exit after SIGTERM (second instance) within the drain budget; parked=%v", c.ParkedKeys())
+		return
+	}
+	r.mu.Lock()
+	tr := append([]lcEvent(nil), r.trace[mark:]...)
+	r.mu.Unlock()
+	idx := func(kind string) (first, n int) {
+		first = -1
+		for i, e := range tr {
+			if e.kind == "exit" {
+				break
+			}
+			if e.kind == kind && e.inst == cfg.label {
+				if first < 0 {
+					first = i
+				}
+				n++
+			}
+		}
+		return
+	}
+	iF, nF := idx("cb:firststartup")
+	iS, nS := idx("cb:startup")
+	iB, _ := idx("serve-begin")
+	_, nSh := idx("cb:shutdown")
+	_, nFin := idx("cb:finalshutdown")
+	if nF != 1 || nS != 1 || iF > iS || (iB >= 0 && iS > iB) {
+		c.Violate("C16/second-initial-start", "", "an instance started after the first one was stopped: first-startup callbacks ran %d times, startup callbacks %d times (positions first-startup=%d startup=%d serve=%d); an initial start runs each once, in this order, before serving", nF, nS, iF, iS, iB)
+	}
+	if nSh != 1 || nFin != 1 {
+		c.Violate("C16/process-shutdown-callbacks", "second-instance", "process shutdown: the instance started after the first one was stopped saw shutdown=%d final-shutdown=%d callbacks before exit", nSh, nFin)
+	}
 }
 
 func (r *lcRig) nextSeq() int { r.cbSeq++; return r.cbSeq }
@@ -780,6 +856,11 @@ func (r *lcRig) check() {
 		}
 		if n > 1 {
 			c.Violate("C16/callback-repeated", "firststartup", "first-startup callback of %s ran %d times", cfg.label, n)
+		}
+		if cfg.label == v0 {
+			if f, s0 := first("cb:firststartup", v0), first("cb:startup", v0); s0 >= 0 && s0 < end && (f < 0 || f > s0) {
+				c.Violate("C16/firststartup-missing", "", "the initial start of %s ran its startup callbacks (position %d) without its first-startup callbacks before them (position %d)", v0, s0, f)
+			}
 		}
 		// (b) startup at most once, before the instance's servers listen/serve
 		ns := count("cb:startup", cfg.label, 0, end)
